@@ -79,20 +79,25 @@ def vec_len(t):
     return None
 
 
-def run(ctx):
-    ctx.prefetch(["default", "fixtures"])
-    fb = ctx.fb("default")
-    # ---- R05-1 purity
+def check_purity(ctx, fb, rule="R05-1"):
+    """the witness calculation reaches no global, clock, RNG, environment or interior-mutable state: its result is a function of the
+    request and of the graph bytes of the instance it is called on"""
     seen, ext, statics = reach(fb, ENTRY)
     bad = sorted(n for n in ext if any(re.search(d, n) for d in DENY_EFFECTS))
     for s in sorted(seen):
         ctx.analysed["functions"].add(s)
-    ctx.check(not bad, "R05-1", "purity[calc_witness]", "%d repository fns and %d external callees reachable, none on the effect deny-list" % (len(seen), len(ext)),
+    ctx.check(not bad, rule, "purity[calc_witness]", "%d repository fns and %d external callees reachable, none on the effect deny-list" % (len(seen), len(ext)),
               "witness calculation reaches %s (first via %s): evaluation is no longer a function of the inputs and the graph alone" % (bad[:4], ext.get(bad[0]) if bad else ""))
-    ctx.check(not statics, "R05-1", "globals[calc_witness]", "no global state reached", "witness calculation reaches global state %s" % sorted(statics))
-    ctx.check(not any("random_eval" in s or "value_numbering" in s for s in seen), "R05-1", "optimiser not on the evaluation path", "random_eval/value_numbering unreachable",
+    ctx.check(not statics, rule, "globals[calc_witness]", "no global state reached", "witness calculation reaches global state %s" % sorted(statics))
+    ctx.check(not any("random_eval" in s or "value_numbering" in s for s in seen), rule, "optimiser not on the evaluation path", "random_eval/value_numbering unreachable",
               "the randomised optimiser passes are reachable from calc_witness")
     ctx.floor("reachable-functions", len(seen), 8)
+
+
+def run(ctx):
+    ctx.prefetch(["default", "fixtures"])
+    fb = ctx.fb("default")
+    check_purity(ctx, fb)
     # ---- R05-2 order independence of placement (rule shared with C20)
     from ..main import Ctx
     sub = Ctx(ctx.pid, ctx.tier)
